@@ -1946,7 +1946,9 @@ class Exists(QuantifiedConditional):
             below = getattr(below, "_child_", None)
         satisfied = set()
         unsatisfied = {}
+        has_any_value = False
         for val in self.condition._evaluate__(sources, parent=self):
+            has_any_value = True
             binding = tuple(val[i].id_ for i in free_ids if i in val)
             if binding in satisfied:
                 continue
@@ -1964,6 +1966,10 @@ class Exists(QuantifiedConditional):
                 True,
                 self,
             )
+        if not has_any_value:
+            # nothing to choose a witness from (an empty domain): the condition holds for no value
+            self._is_false_ = True
+            yield OperationResult(sources, True, self)
 
     def _invert_(self):
         return ForAll(self.variable, self.condition._invert_())
